@@ -363,6 +363,27 @@ impl Ntv2Spec {
                 let c_rows = 2 * (rows - 3) + 1;
                 let c_cols = 2 * (cols - 3) + 1;
                 let child_name = format!("C{}", b);
+                // two adjacent siblings sharing an edge instead of one child, now and then:
+                // by the NTv2 rule the shared edge belongs to the sibling for which it is
+                // the lower (southern / western) limit
+                if rng.chance(0.3) && c_cols >= 5 && c_rows >= 5 {
+                    let h = inc / 2.0;
+                    if rng.chance(0.5) {
+                        let k = 1 + rng.below(c_cols - 2); // cells in the western sibling
+                        let west = Self::gen_subgrid(rng, &format!("W{}", b), &base_name, s_lat + inc, w + inc, c_rows, k + 1, h, h);
+                        let east = Self::gen_subgrid(rng, &format!("E{}", b), &base_name, s_lat + inc, w + inc + k as f64 * h, c_rows, c_cols - k, h, h);
+                        subgrids.push(west);
+                        subgrids.push(east);
+                    } else {
+                        let k = 1 + rng.below(c_rows - 2); // cells in the southern sibling
+                        let south = Self::gen_subgrid(rng, &format!("S{}", b), &base_name, s_lat + inc, w + inc, k + 1, c_cols, h, h);
+                        let north = Self::gen_subgrid(rng, &format!("N{}", b), &base_name, s_lat + inc + k as f64 * h, w + inc, c_rows - k, c_cols, h, h);
+                        subgrids.push(south);
+                        subgrids.push(north);
+                    }
+                    subgrids.push(base);
+                    continue;
+                }
                 let child = Self::gen_subgrid(rng, &child_name, &base_name, s_lat + inc, w + inc, c_rows, c_cols, inc / 2.0, inc / 2.0);
                 if rng.chance(0.4) && c_rows >= 5 && c_cols >= 5 {
                     let g_rows = 2 * (c_rows - 3) + 1;
